@@ -187,6 +187,27 @@ type cbMon struct {
 	wrapWant  []byte
 	// the argument slices kit handed to the callbacks, kept to look at them later (observed only)
 	argKeys []argSlice
+	// argMode: CALLBACK-OWNED ARGUMENT. The plaintextKey slice is handed to the wrap callback, which may use
+	// it as it likes: argInPlace wraps in place and returns that very slice (possible when the wrapped key is
+	// 32 bytes long: the AES-CBC-NOPAD algorithms; otherwise it behaves like argZero), argZero returns a fresh
+	// wrapped copy and then zeroes the argument (a careful key store wiping key material), argScribble returns
+	// a fresh copy and overwrites the argument with other bytes. The matching unwrap is the ordinary one; the
+	// document must decrypt (kit and reference) exactly as in every other case.
+	argMode int
+}
+
+const (
+	argUntouched = iota
+	argInPlace
+	argZero
+	argScribble
+)
+
+var argModeNames = []string{"untouched", "wrapped-in-place-and-returned", "zeroed-after-wrapping", "scribbled-after-wrapping"}
+
+// argModeOf: which callback-owned-argument behaviour case idx uses (independent of idx%2 and idx%3).
+func argModeOf(idx int) int {
+	return []int{argUntouched, argInPlace, argZero, argScribble, argUntouched}[idx%5]
 }
 
 type argSlice struct {
@@ -329,8 +350,23 @@ func (m *cbMon) wrap(plaintextKey []byte, algorithm, keyName string, nonce []byt
 	m.innerRoundTrip("wrap")
 	out, err := m.v.wrap(plaintextKey, algorithm, keyName)
 	m.wraps = append(m.wraps, wrapCall{keyLen: len(plaintextKey), alg: algorithm, name: keyName, nonce: nonce != nil, out: append([]byte(nil), out...), err: err})
+	if err == nil && m.argMode != argUntouched {
+		switch {
+		case m.argMode == argInPlace && len(out) == len(plaintextKey):
+			copy(plaintextKey, out)
+			out = plaintextKey // the very slice that was passed in
+			rec.Count("callback.argmode.wrapped-in-place-and-returned.same_slice_returned", 1)
+		case m.argMode == argScribble:
+			for i := range plaintextKey {
+				plaintextKey[i] = byte(0xE1 + 11*i)
+			}
+		default:
+			clear(plaintextKey)
+		}
+		rec.Count("callback.argmode."+argModeNames[m.argMode], 1)
+	}
 	m.argKeys = append(m.argKeys, argSlice{"plaintext_key", plaintextKey, append([]byte(nil), plaintextKey...)})
-	if m.owned && err == nil && len(out) <= len(m.wrapBuf)-128 {
+	if m.owned && err == nil && len(out) <= len(m.wrapBuf)-128 && (m.argMode != argInPlace || len(out) != 32) {
 		// answer from the long-lived buffer (guard bytes before and after, spare capacity behind)
 		copy(m.wrapBuf[64:], out)
 		copy(m.wrapWant[64:], out)
@@ -722,6 +758,8 @@ type caseCtx struct {
 	L     int
 	names [3]string
 	note  string // replaces the spec string in replays (cases outside the covering array)
+	// sigSuffix is appended to every violation signature of the case (names a special callback behaviour)
+	sigSuffix string
 }
 
 // abbr shortens the very long generated key names in replay records (they are bigName(len)).
@@ -745,6 +783,13 @@ func (c *caseCtx) replay(extra map[string]any) map[string]any {
 }
 
 func (c *caseCtx) viol(sig, msg string, extra map[string]any) {
+	if c.sigSuffix != "" {
+		sig += c.sigSuffix
+		if extra == nil {
+			extra = map[string]any{}
+		}
+		extra["wrap_callback_behaviour"] = c.sigSuffix[1:]
+	}
 	rec.Violation(c.idx, sig, msg, c.replay(extra))
 }
 
@@ -780,7 +825,10 @@ func runCase(idx int, s spec) bool {
 	keyName, decName, override := c.names[0], c.names[1], c.names[2]
 	alg := algs[s.Alg]
 	v := newVault(strconv.Itoa(idx), keyName, decName, override)
-	cb := &cbMon{v: v, busy: idx%2 == 1, owned: idx%3 == 0}
+	cb := &cbMon{v: v, busy: idx%2 == 1, owned: idx%3 == 0, argMode: argModeOf(idx)}
+	if cb.argMode != argUntouched {
+		c.sigSuffix = "/wrap-arg=" + argModeNames[cb.argMode]
+	}
 	if cb.owned {
 		cb.initOwned()
 		rec.Count("callback.owned.cases", 1)
@@ -1388,14 +1436,29 @@ func TestCheck(t *testing.T) {
 		"Lengths {0,1,2,15,16,17,k*65536-1,k*65536,k*65536+1 (k=1..4), seeded random <= 400 KiB}; ciphers {nil, AES-GCM, ChaCha20-Poly1305}; the five algorithm ids and the aliases AES, RSA, each wrapped for real by kit's crypto package (AES-KW, AES-CBC no-pad 128/192/256, RSA-OAEP-256 2048 bit); "+
 		"source styles {all-at-once, 1-byte, seeded random chunks, zero-length reads interleaved, last data together with EOF, io.Pipe writer with random write sizes}; consumers {io.ReadAll, 1-byte/61-byte buffer, random sizes, 70000-byte buffer}. "+
 		"The first cases form a seeded covering array of strength 2 over these 13 dimensions (every pair of values of every two dimensions), the thorough tier adds the full product length<=65537 x cipher x algorithm x key-name options and the full product of the four reader/consumer styles at seven boundary lengths, the rest are seeded random vectors. "+
-		"Each case is judged by: the structural monitor on the ciphertext bytes, refenc.Decrypt(kit.Encrypt(pt))==pt, kit.Decrypt(kit.Encrypt(pt))==pt with clean EOF, kit.Decrypt(refenc.Encrypt(pt))==pt, the wrap/unwrap argument monitor and the ErrDecryptionKeyMissing rule; in every odd-numbered case the key callbacks are busy: each call runs an independent small enc/v1 Encrypt/Decrypt round trip before answering (a key store that protects its own records with the scheme), which must neither fail nor disturb the outer stream; in every third case the callbacks answer from CALLBACK-OWNED MEMORY (unwrap returns the same slice of a guarded key table for a given key name and wrapped key - later decryptions of the case get that very slice again -, wrap returns a slice of a long-lived buffer) and after every Encrypt/Decrypt that memory, its guard bytes, neighbouring keys and spare capacity must be unchanged; the argument slices kit passes to the callbacks are looked at again afterwards (counted, not judged). distinct = distinct dimension vectors; non-trivial = every case (a real encryption and three real decryptions); case 0 additionally decrypts kit's seven testdata files with refenc. Every case with at least 2 plaintext bytes is followed by an overlapped round trip: kit's ciphertext is opened with Decrypt and read to k bytes (k in {1,10,65535,65546}, or half the plaintext), then a complete Decrypt of the reference ciphertext and a complete Encrypt (checked by refenc) run, then the rest is read; all three must be exact. Before that nested round trip kit's FAILURE paths are provoked with the case's own documents (a copy with a flipped ciphertext byte and a copy cut mid-segment decrypted to their errors, a Decrypt stream and an Encrypt stream abandoned and closed by the consumer, an Encrypt whose source breaks mid-way), so that what those paths leave in shared state is present. "+
+		"Each case is judged by: the structural monitor on the ciphertext bytes, refenc.Decrypt(kit.Encrypt(pt))==pt, kit.Decrypt(kit.Encrypt(pt))==pt with clean EOF, kit.Decrypt(refenc.Encrypt(pt))==pt, the wrap/unwrap argument monitor and the ErrDecryptionKeyMissing rule; in every odd-numbered case the key callbacks are busy: each call runs an independent small enc/v1 Encrypt/Decrypt round trip before answering (a key store that protects its own records with the scheme), which must neither fail nor disturb the outer stream; in every third case the callbacks answer from CALLBACK-OWNED MEMORY (unwrap returns the same slice of a guarded key table for a given key name and wrapped key - later decryptions of the case get that very slice again -, wrap returns a slice of a long-lived buffer) and after every Encrypt/Decrypt that memory, its guard bytes, neighbouring keys and spare capacity must be unchanged; the argument slices kit passes to the callbacks are looked at again afterwards (counted, not judged); in three of every five cases the wrap callback treats its plaintextKey ARGUMENT as its own (wraps in place and returns that very slice when the wrapping is 32 bytes long, or returns a fresh copy and then zeroes, or scribbles over, the argument) - the document must decrypt with kit and the reference all the same. distinct = distinct dimension vectors; non-trivial = every case (a real encryption and three real decryptions); case 0 additionally decrypts kit's seven testdata files with refenc. Every case with at least 2 plaintext bytes is followed by an overlapped round trip: kit's ciphertext is opened with Decrypt and read to k bytes (k in {1,10,65535,65546}, or half the plaintext), then a complete Decrypt of the reference ciphertext and a complete Encrypt (checked by refenc) run, then the rest is read; all three must be exact. Before that nested round trip kit's FAILURE paths are provoked with the case's own documents (a copy with a flipped ciphertext byte and a copy cut mid-segment decrypted to their errors, a Decrypt stream and an Encrypt stream abandoned and closed by the consumer, an Encrypt whose source breaks mid-way), so that what those paths leave in shared state is present. "+
 		"Long key names (after the huge cases): KeyName or DecryptionKeyName sized so that the three-line header is exactly N bytes for every N in 65534..65556 (every off-by-one around 65536 and 65552), and ordinary 10 KiB / 60 KiB names, x both ciphers x {A256KW, A128CBC-NOPAD, RSA-OAEP-256} (all seven in thorough), some with a long decrypt override; EITHER Encrypt refuses (counted per side of 65536) OR the document passes the structural monitor and is decrypted by refenc and by kit (seeded reader styles) to the plaintext; the published format sets no header limit and refenc imposes none. "+
 		"Huge cases (after the ordinary ones, each run by one child): a generated plaintext of 4 GiB + 64 KiB + 100 bytes = 65538 segments (every segment differs) is streamed through kit.Encrypt and decrypted by refenc's streaming reader (quick: AES-GCM; thorough: both ciphers and also refenc's streaming Encrypt -> kit.Decrypt), "+
 		"compared position by position with the generator, plus total length, segment count and ciphertext length; this is the only place where segment numbers >= 65536 (the upper half of the nonce's 32-bit counter) occur.")
 	rec.Note("require", []string{"callback.inner_round_trips", "struct.ok", "ref_decrypts_kit.ok", "kit_decrypts_ref.ok", "roundtrip.ok", "key_missing.ok", "testdata.files_decrypted_by_refenc",
 		"src.zero_length_reads", "src.eof_with_last_data", "src.pipe_sources", "length.len=0", "length.len=k*64K", "length.len=k*64K+1", "length.len=k*64K-1",
-		"overlap.ok", "overlap.failures_provoked_before_the_nested_round_trip", "overlap.provoked.tampered", "overlap.provoked.cut-mid-segment", "overlap.provoked.decrypt_stream_abandoned_and_closed", "overlap.provoked.encrypt_stream_abandoned_and_closed", "overlap.provoked.encrypt_source_failed", "callback.owned.cases", "callback.owned.memory_verified_intact", "callback.owned.unwrap_answered_from_the_same_slice", "bigname.roundtrip_ok", "bigname.roundtrip_ok.header-le-65536", "bigname.roundtrip_ok.ordinary-long-name", "bigname.encrypt_accepted.header-le-65536", "huge.kit-to-ref.ok", "huge.segments_beyond_65535_authenticated", "alg.AES", "alg.RSA", "alg.A128CBC-NOPAD", "alg.A192CBC-NOPAD", "alg.A256CBC-NOPAD", "alg.A256KW", "alg.RSA-OAEP-256"})
-	rec.Note("plan", map[string]int{"covering_array_rows": nPairwise, "full_product_rows": nProduct, "total": len(specs)})
+		"overlap.ok", "overlap.failures_provoked_before_the_nested_round_trip", "overlap.provoked.tampered", "overlap.provoked.cut-mid-segment", "overlap.provoked.decrypt_stream_abandoned_and_closed", "overlap.provoked.encrypt_stream_abandoned_and_closed", "overlap.provoked.encrypt_source_failed", "callback.argmode.wrapped-in-place-and-returned", "callback.argmode.wrapped-in-place-and-returned.same_slice_returned", "callback.argmode.zeroed-after-wrapping", "callback.argmode.scribbled-after-wrapping",
+		"callback.owned.cases", "callback.owned.memory_verified_intact", "callback.owned.unwrap_answered_from_the_same_slice", "bigname.roundtrip_ok", "bigname.roundtrip_ok.header-le-65536", "bigname.roundtrip_ok.ordinary-long-name", "bigname.encrypt_accepted.header-le-65536", "huge.kit-to-ref.ok", "huge.segments_beyond_65535_authenticated", "alg.AES", "alg.RSA", "alg.A128CBC-NOPAD", "alg.A192CBC-NOPAD", "alg.A256CBC-NOPAD", "alg.A256KW", "alg.RSA-OAEP-256"})
+	planNote := map[string]int{"covering_array_rows": nPairwise, "full_product_rows": nProduct, "total": len(specs),
+		"huge_cases": len(hugePlan()), "long_key_name_cases": len(bigPlan())}
+	for idx, sp := range specs {
+		planNote["wrap_argument."+argModeNames[argModeOf(idx)]]++
+		if argModeOf(idx) == argInPlace && symSize(algs[sp.Alg].resolved) > 0 && algs[sp.Alg].resolved != "A256KW" {
+			planNote["wrap_argument.wrapped-in-place-and-returned.with_a_32_byte_wrapping"]++
+		}
+		if idx%3 == 0 {
+			planNote["callback_owned_memory_cases"]++
+		}
+		if idx%2 == 1 {
+			planNote["busy_callback_cases"]++
+		}
+	}
+	rec.Note("plan", planNote)
 	// the huge cases come after the ordinary ones; each is run by exactly one child
 	for i, h := range hugePlan() {
 		idx := len(specs) + i
